@@ -2,6 +2,7 @@ package main
 
 import (
 	"fmt"
+	"os"
 	"strconv"
 	"strings"
 	"time"
@@ -60,6 +61,32 @@ func c16Fen(args []string) int {
 	rng := NewRng(seed)
 	w := NewWalker(rng)
 	rep := NewReport("c16-fen")
+	inputs, valid := fenInputs(rng, w, n)
+	seen := map[string]bool{}
+	for _, in := range inputs {
+		rep.Cases++
+		if !seen[in] {
+			seen[in] = true
+			rep.Distinct++
+		}
+		res, out, pan := tryFen(in)
+		if pan {
+			rep.Violate("fen-panic", map[string]interface{}{"fen": in}, out)
+			continue
+		}
+		rep.Stats["fen_"+res]++
+		if res == "ok" {
+			res2, out2, pan2 := tryFen(out)
+			if pan2 || res2 != "ok" || out2 != out {
+				rep.Violate("fen-does-not-reparse", map[string]interface{}{"fen": in}, fmt.Sprintf("own FEN %q -> %s %q", out, res2, out2))
+			}
+		}
+	}
+	rep.Sample(map[string]interface{}{"malformed_example": inputs[3], "valid_example": valid[0]})
+	return rep.Emit()
+}
+
+func fenInputs(rng *Rng, w *Walker, n int) ([]string, []string) {
 	var valid []string
 	w.Stream(n/4+100, true, func(g GamePos) { valid = append(valid, g.P.StringFen()) })
 	var inputs []string
@@ -105,28 +132,7 @@ func c16Fen(args []string) int {
 			inputs = append(inputs, mutate(rng, v))
 		}
 	}
-	seen := map[string]bool{}
-	for _, in := range inputs {
-		rep.Cases++
-		if !seen[in] {
-			seen[in] = true
-			rep.Distinct++
-		}
-		res, out, pan := tryFen(in)
-		if pan {
-			rep.Violate("fen-panic", map[string]interface{}{"fen": in}, out)
-			continue
-		}
-		rep.Stats["fen_"+res]++
-		if res == "ok" {
-			res2, out2, pan2 := tryFen(out)
-			if pan2 || res2 != "ok" || out2 != out {
-				rep.Violate("fen-does-not-reparse", map[string]interface{}{"fen": in}, fmt.Sprintf("own FEN %q -> %s %q", out, res2, out2))
-			}
-		}
-	}
-	rep.Sample(map[string]interface{}{"malformed_example": inputs[3], "valid_example": valid[0]})
-	return rep.Emit()
+	return inputs, valid
 }
 
 func uciCommand(u *uci.UciHandler, line string) (out string, panicked bool, hung bool) {
@@ -254,3 +260,59 @@ func init() {
 	register("c16-fen", c16Fen)
 	register("c16-uci", c16Uci)
 }
+
+// c16-cases <n> <seed> <out.v>: NewPositionFen observations (accept/reject and the printed FEN) for
+// the Coq model FenImpl.setup.
+func c16Cases(args []string) int {
+	n, _ := strconv.Atoi(args[0])
+	seed, _ := strconv.ParseUint(args[1], 10, 64)
+	rng := NewRng(seed)
+	w := NewWalker(rng)
+	f, err := os.Create(args[2])
+	if err != nil {
+		die(err)
+	}
+	defer f.Close()
+	var sb strings.Builder
+	rep := NewReport("c16-cases")
+	inputs, _ := fenInputs(rng, w, 4000)
+	sb.WriteString("(* GENERATED by verifh c16-cases *)\nFrom Coq Require Import NArith List Bool String.\nFrom FG Require Import CasesFen.\nImport ListNotations.\nOpen Scope string_scope.\nOpen Scope N_scope.\n")
+	sb.WriteString("Definition cases : list (list N * N * string) := [\n")
+	first := true
+	for k := 0; k < n; k++ {
+		in := inputs[rng.Intn(len(inputs))]
+		if k < 40 {
+			in = inputs[(k*37)%len(inputs)]
+		}
+		res, out, pan := tryFen(in)
+		if pan {
+			rep.Violate("fen-panic", map[string]interface{}{"fen": in}, out)
+			continue
+		}
+		if !first {
+			sb.WriteString(";\n")
+		}
+		first = false
+		sb.WriteString("([")
+		for i := 0; i < len(in); i++ {
+			if i > 0 {
+				sb.WriteString(";")
+			}
+			sb.WriteString(strconv.Itoa(int(in[i])))
+		}
+		obs := 0
+		if res == "ok" {
+			obs = 1
+		}
+		fmt.Fprintf(&sb, "],%d,\"%s\")", obs, out)
+		rep.Cases++
+		rep.Stats["fen_"+res]++
+	}
+	sb.WriteString("].\nDefinition M := Eval vm_compute in (fen_mismatches cases).\nPrint M.\n")
+	f.WriteString(sb.String())
+	rep.Distinct = rep.Cases
+	rep.Sample(map[string]interface{}{"example_input": inputs[5]})
+	return rep.Emit()
+}
+
+func init() { register("c16-cases", c16Cases) }
